@@ -35,6 +35,11 @@ inductive Action where
   | setTimeout (ns : Nat)
   | yield
   | sleep (ns : Nat)
+  /-- `aws_thread_call_once(&flag[id], cb)`; the callback of flag `id` registers the at-exit callbacks `P.onceRegs id`
+      (at most two are modelled) on the calling thread -/
+  | once (id : Nat)
+  /-- `aws_common_library_init` on the already initialised library (every dependent library issues one) -/
+  | libInit
   deriving DecidableEq, Repr, Inhabited
 
 inductive Status where
@@ -90,6 +95,7 @@ inductive Instr where
   | cwake
   | sleepUntil (u : Nat)
   | yield
+  | onceCall (id : Nat)      -- pthread_once
   -- local
   | allocW (k : Nat) (named : Bool)   -- wrapper block (+ the aws_string copy of the name)
   | freeW (k : Nat) (named : Bool)    -- s_thread_wrapper_destroy: wrapper (+ the name if still attached)
@@ -101,6 +107,7 @@ inductive Instr where
   | jaBegin | readTo | jaInit | waitForPredInit | jaCheck
   | jaRet (ok : Bool) (snap : List Nat)
   | pjaSwapPush
+  | libInit
   deriving DecidableEq, Repr, Inhabited
 
 structure Th where
@@ -131,6 +138,7 @@ structure Prog where
   n : Nat
   managed : Nat → Bool
   body : Nat → List Action
+  onceRegs : Nat → List Nat := fun _ => []
   failAt : Option Nat := none
   failErr : Nat := 11
   tick : Nat := 0
@@ -150,6 +158,7 @@ structure State where
   hoCtr : Nat := 0      -- ghost: number of hand-overs so far
   misuse : Nat := 0     -- pthread_join calls on an id that is not the thread's (ESRCH)
   cbLive : Nat := 0
+  onceDone : Nat → Bool := fun _ => false    -- pthread_once flags whose init routine has run
   log : List Ev := []
   wlog : List WEv := []
 
@@ -199,13 +208,15 @@ def expand (P : Prog) (s : State) (_t : Nat) : Action → List Instr
   | .setTimeout ns => [.lock, .setTo ns, .unlock]
   | .yield => [.yield]
   | .sleep ns => [.sleepUntil (s.now + ns)]
+  | .once id => [.onceCall id]
+  | .libInit => [.libInit]
 
 /-- code a managed thread runs after its at-exit chain: `aws_thread_pending_join_add` -/
 def handOverCode : List Instr := [.lock, .pjaSwapPush]
 
 def Instr.isSync : Instr → Bool
   | .lock | .unlock | .signal | .create _ _ _ _ | .createRet _ | .joinM _ | .joinU _ | .detach _ | .cwait _ | .cwake
-  | .sleepUntil _ | .yield => true
+  | .sleepUntil _ | .yield | .onceCall _ => true
   | _ => false
 
 /-- thread `t` continues with `code` after its own fields were changed to `me` -/
@@ -316,6 +327,20 @@ def exec (P : Prog) (s : State) (t : Nat) (i : Instr) (rest : List Instr) : Opti
     else none
   | .sleepUntil u => if u ≤ s.now then some (pushW (cont s t me rest) (wev s t "sleep" "-" 0)) else none
   | .yield => some (pushW (cont s t me rest) (wev s t "yield" "-" 0))
+  | .onceCall id =>
+    -- pthread_once: the first caller runs the init routine (here: its at-exit registrations, which have no
+    -- schedule point, so "in progress" is never visible to another thread); later callers return at once
+    if s.onceDone id then
+      some (pushW (cont s t me rest) (wev s t "once" s!"f{id}" 0))
+    else
+      let regs : List Instr := match P.onceRegs id with
+        | [] => []
+        | [a] => [.act (.atexit a)]
+        | a :: b :: _ => [.act (.atexit a), .act (.atexit b)]
+      some (pushW (cont { s with onceDone := upd s.onceDone id true } t me (regs ++ rest)) (wev s t "once" s!"f{id}" 1))
+  -- aws_common_library_init when s_common_library_initialized is already set: nothing happens; in particular the
+  -- managed-thread count and the pending-join list are left alone
+  | .libInit => some (cont s t me rest)
   | .logJoin k => some (pushLog (cont s t me rest) (.joinSkip k t))
   | .readCount => some (cont s t { me with rVal := s.count } rest)
   | .logCount => some (pushLog (cont s t me rest) (.count t me.rVal))
